@@ -2609,6 +2609,15 @@ XPathProcessorImpl::NodeTest()
         {
             error(XalanMessages::ExpectedNodeTest);
         }
+        else if (XalanQName::isValidNCName(m_token) == false)
+        {
+            // A name test is a QName: isNodeTest() looks at the first
+            // character only, and the tokenizer ends a name only at white
+            // space, a quote or a delimiter, so "a#b" and "a?" get here.
+            error(
+                XalanMessages::NotValidNCName_1Param,
+                m_token);
+        }
         else
         {
             m_expression->pushCurrentTokenOnOpCodeMap();
